@@ -50,8 +50,10 @@ class Violation(Exception):
         self.detail = detail
         self.site = dict(site or {})
 
+    BUCKET_KEYS = ("action", "kind", "storage", "rep", "reps", "what", "sig", "fault", "gate", "type", "scale")
+
     def bucket(self) -> str:
-        keys = sorted(k for k in self.site if not k.startswith("_"))
+        keys = sorted(k for k in self.site if k in self.BUCKET_KEYS)
         return self.oracle + "|" + ",".join(f"{k}={self.site[k]}" for k in keys)
 
 
